@@ -38,6 +38,9 @@ func Shrink(p *Prop, t *trace.Trace, sig, dir string) (*trace.Trace, int) {
 
 	// 1. drop faults one at a time
 	for i := len(cur.Faults) - 1; i >= 0; i-- {
+		if p.KeepLastFault && len(cur.Faults) == 1 {
+			break
+		}
 		c := cur.Clone()
 		c.Faults = append(c.Faults[:i:i], c.Faults[i+1:]...)
 		if try(c) {
